@@ -866,19 +866,20 @@ class Model:
                 for h in getattr(a, "handlers", []):
                     h.body = rewrite(h.body)
                 # if c: x = A else: x = B   ==>   x = A if c else B
+                # (the same name, or the same entry `d[k]` of the same container)
                 if isinstance(a, ast.If) and len(a.body) == 1 and len(a.orelse) == 1 \
                         and all(isinstance(z, ast.Assign) and len(z.targets) == 1
-                                and isinstance(z.targets[0], ast.Name)
+                                and isinstance(z.targets[0], (ast.Name, ast.Subscript))
                                 for z in (a.body[0], a.orelse[0])) \
-                        and a.body[0].targets[0].id == a.orelse[0].targets[0].id:
+                        and ast.dump(a.body[0].targets[0]) == ast.dump(a.orelse[0].targets[0]):
                     a = ast.Assign(
-                        targets=[ast.Name(id=a.body[0].targets[0].id, ctx=ast.Store())],
+                        targets=[a.body[0].targets[0]],
                         value=ast.IfExp(test=a.test, body=a.body[0].value,
                                         orelse=a.orelse[0].value), lineno=a.lineno)
                 out.append(a)
                 i += 1
             return out
-        new.body = rewrite(new.body)
+        new.body = rewrite(rewrite(new.body))     # (an inner rewrite can enable an outer one)
         ast.fix_missing_locations(new)
         for p_ in ast.walk(new):
             for ch in ast.iter_child_nodes(p_):
